@@ -39,6 +39,10 @@ fn main() {
     let mut reg: Vec<Entry> = Vec::new();
     match args[1].as_str() {
         "c16" => hand::register(&mut reg),
+        "c18" => {
+            check::SINGLE_OBJECT_MODE.store(true, std::sync::atomic::Ordering::Relaxed);
+            hand::register(&mut reg);
+        }
         _ => {
             derived_fixed::register(&mut reg);
             #[cfg(feature = "seeded")]
